@@ -80,6 +80,42 @@ EXPECT_PARTIAL = {'extract_next_field': False, 'split_quoted_str': True, 'split_
                   'quote_field': False, 'rfc_quote_field': False}
 EXPECT_MUTATED = {'extract_next_field': ['result']}
 
+# ---- rbql-js/csv_utils.js (parsed by harness/jsparse_csv.py into the same ast node classes)
+#   additional rules: s.length -> zlen;  s.substring(a[, b]) -> js_substring;  s.indexOf(p[, from]) -> js_indexof (and the tests
+#   against -1 -> py_contains);  s.startsWith(p, pos) -> js_startswith;  s.slice(a, b) -> py_slice;  s.replace(/text/g, '..') for a
+#   pattern of plain characters and a replacement without $ -> py_replace;  l.push(e) -> append;  `..${x}..` -> concatenation;
+#   an array display with components of different types -> a tuple;  new RegExp(<constant text>[, flags]) -> PyStr.rx by the
+#   table RX_TABLE_JS keyed on (text, flags);  rgx.exec(s) for an anchored (^) pattern without the g flag -> re_match rgx s 0;
+#   while ((m = rgx.exec(s)) !== null) for a pattern with the g flag -> fold_left over re_finditer_g0 (m[0] -> the element);
+#   m[0] / m[1] -> m_group0 / m_group1;  for (let i = a; c; i++) body -> i := a; while_fuel .. (body; i := i + 1);  x = null.
+#   Strings are sequences of UTF-16 code units on this side (indices and lengths count units).
+JS_SRC_REL = 'rbql-js/csv_utils.js'
+RX_TABLE_JS = {
+    ('^' + FIELD_RX, ''): ('RxField', {'exec'}),
+    ('^ *' + FIELD_RX + ' *', ''): ('RxFieldExt', {'exec'}),
+    ('[^ ]+', 'g'): ('RxWs', {'exec_all'}),
+    (' *[^ ]+ *', 'g'): ('RxWsPreserve', {'exec_all'}),
+}
+RX_ALLOWED_JS = {}
+for _v in RX_TABLE_JS.values():
+    RX_ALLOWED_JS.setdefault(_v[0], set()).update(_v[1])
+JS_REPLACE_LITERALS = {('""', 'g'): '""', ('"', 'g'): '"'}       # regex literal (pattern, flags) -> the plain text it matches
+FUEL_JS = {'split_quoted_str': [('S (length %s)', 'src')], 'split_whitespace_separated_str': [('S (length %s)', 'result')]}
+EXPECT_PARTIAL_JS = dict(EXPECT_PARTIAL, split_whitespace_separated_str=True)
+
+
+class Lang:
+    def __init__(self, name):
+        self.name = name
+        self.js = name == 'js'
+        self.src_rel = JS_SRC_REL if self.js else SRC_REL
+        self.prefix = 'gen_js_' if self.js else 'gen_py_'
+        self.fuel = FUEL_JS if self.js else {k: [(v.replace('src', '%s'), 'src')] for k, v in FUEL.items()}
+        self.expect_partial = EXPECT_PARTIAL_JS if self.js else EXPECT_PARTIAL
+
+
+LANG = Lang('py')
+
 RESERVED = set('''fix match end in fun let if then else return at as with Type Set Prop forall exists where using for
     find split replace count join length map fold_left fst snd nth seq app rev firstn skipn negb orb andb true false Some None
     str ch has contains starts_with strip_prefix str_eqb zlen py_find py_contains py_startswith py_slice py_getitem py_setitem
@@ -93,7 +129,7 @@ class Refuse(Exception):
 
 def refuse(node, msg):
     line = getattr(node, 'lineno', '?')
-    raise Refuse('%s:%s: %s' % (SRC_REL, line, msg))
+    raise Refuse('%s:%s: %s' % (LANG.src_rel, line, msg))
 
 
 # ------------------------------------------------------------------ types
@@ -186,7 +222,7 @@ def lit_int(n):
 
 
 def coq_name(py):
-    return py + '_v' if (py in RESERVED or py.startswith('gen_py_') or py.startswith('ix_')) else py
+    return py + '_v' if (py in RESERVED or py.startswith('gen_') or py.startswith('ix_') or py.startswith('jsix_')) else py
 
 
 def mk_let(name, value, body):
@@ -235,6 +271,26 @@ class Module:
                     continue
             refuse(st, 'module-level statement outside the rules: %s' % ast.dump(st)[:120])
 
+    @classmethod
+    def from_js(cls, consts, funcs, order):
+        self = cls(ast.Module(body=[], type_ignores=[]))
+        self.funcs = dict(funcs)
+        self.order = list(order)
+        for name, e, line in consts:
+            e.lineno = line
+            if name in self.consts or name in self.rx:
+                refuse(e, 'module constant %s assigned twice' % name)
+            txt = self.const_text(e)
+            if txt is not None:
+                self.consts[name] = txt
+                continue
+            pat = self.compile_text(e)
+            if pat is not None:
+                self.rx[name] = pat
+                continue
+            refuse(e, 'top-level constant %s is outside the rules' % name)
+        return self
+
     def const_text(self, node):
         if isinstance(node, ast.Constant) and isinstance(node.value, str):
             return node.value
@@ -248,7 +304,14 @@ class Module:
         return None
 
     def compile_text(self, node):
-        """re.compile(<constant text>) -> the text"""
+        """re.compile(<constant text>) -> the text;  new RegExp(<constant text>[, <flags>]) -> (text, flags)"""
+        if LANG.js:
+            if (isinstance(node, ast.Call) and isinstance(node.func, ast.Name) and node.func.id == 'RegExp' and 1 <= len(node.args) <= 2 and not node.keywords):
+                t = self.const_text(node.args[0])
+                fl = self.const_text(node.args[1]) if len(node.args) == 2 else ''
+                if t is not None and fl is not None:
+                    return (t, fl)
+            return None
         if (isinstance(node, ast.Call) and isinstance(node.func, ast.Attribute) and node.func.attr == 'compile'
                 and isinstance(node.func.value, ast.Name) and node.func.value.id == 're' and len(node.args) == 1 and not node.keywords):
             return self.const_text(node.args[0])
@@ -277,7 +340,7 @@ def assigned_names(stmts, infos=None):
                 out.add(n.id)
             if isinstance(n, ast.Subscript) and isinstance(n.ctx, ast.Store) and isinstance(n.value, ast.Name):
                 out.add(n.value.id)
-            if (isinstance(n, ast.Call) and isinstance(n.func, ast.Attribute) and n.func.attr in ('append', 'extend', 'insert', 'pop', 'clear', 'sort', 'reverse', 'remove')
+            if (isinstance(n, ast.Call) and isinstance(n.func, ast.Attribute) and n.func.attr in ('append', 'push', 'extend', 'insert', 'pop', 'clear', 'sort', 'reverse', 'remove', 'shift', 'unshift', 'splice')
                     and isinstance(n.func.value, ast.Name)):
                 out.add(n.func.value.id)
     return out
@@ -321,6 +384,8 @@ class FnTr:
             return E(lit_int(v), 'int')
         if isinstance(v, str):
             return E(lit_str(v), 'str')
+        if v is None and LANG.js:
+            return E('None', 'none')
         refuse(node, 'constant %r is outside the rules' % (v,))
 
     def e_Name(self, node, env):
@@ -338,9 +403,10 @@ class FnTr:
         refuse(node, 'name %s is not bound here' % node.id)
 
     def rx_of_text(self, node, text):
-        if text not in RX_TABLE:
-            refuse(node, 'regular expression with an unknown pattern text %r (the table of hand-written scanners is keyed on the exact text)' % text)
-        c = RX_TABLE[text][0]
+        table = RX_TABLE_JS if LANG.js else RX_TABLE
+        if text not in table:
+            refuse(node, 'regular expression with an unknown pattern text %r (the table of hand-written scanners is keyed on the exact text)' % (text,))
+        c = table[text][0]
         return E(c, 'rx', rxs={c})
 
     def recv(self, node, env):
@@ -352,6 +418,29 @@ class FnTr:
         finally:
             self._receiver_ok = old
 
+    def e_Attribute(self, node, env):
+        if LANG.js and node.attr == 'length':
+            x = self.recv(node.value, env)
+            if x.ty == 'str' or is_list(x.ty):
+                return E('(zlen %s)' % x.text, 'int')
+        refuse(node, 'attribute %s is outside the rules' % node.attr)
+
+    def e_JoinedStr(self, node, env):
+        out = []
+        for v in node.values:
+            if isinstance(v, ast.Constant) and isinstance(v.value, str):
+                out.append(lit_str(v.value))
+            elif isinstance(v, ast.FormattedValue):
+                a = self.expr(v.value, env)
+                if a.ty != 'str':
+                    refuse(node, 'template substitution of type %s' % show_type(a.ty))
+                out.append(a.text)
+            else:
+                refuse(node, 'template string outside the rules')
+        if not out:
+            return E(lit_str(''), 'str')
+        return E('(' + ' ++ '.join(out) + ')' if len(out) > 1 else out[0], 'str')
+
     def e_Tuple(self, node, env):
         parts = [self.expr(x, env) for x in node.elts]
         if len(parts) < 2:
@@ -362,6 +451,9 @@ class FnTr:
         parts = [self.expr(x, env) for x in node.elts]
         if not parts:
             return E('[]', new_list())
+        if LANG.js and len(parts) >= 2 and any(not same_type(p.ty, parts[0].ty) for p in parts[1:]):
+            # a JavaScript array used as a tuple: [fields, warning]
+            return E('(' + ', '.join(p.text for p in parts) + ')', ('tuple', tuple(p.ty for p in parts)), parts=parts)
         for p in parts[1:]:
             if not same_type(p.ty, parts[0].ty):
                 refuse(node, 'list display with mixed element types')
@@ -479,7 +571,7 @@ class FnTr:
         l, op, r = node.left, node.ops[0], node.comparators[0]
 
         def is_find(n):
-            return (isinstance(n, ast.Call) and isinstance(n.func, ast.Attribute) and n.func.attr == 'find' and len(n.args) == 1 and not n.keywords)
+            return (isinstance(n, ast.Call) and isinstance(n.func, ast.Attribute) and n.func.attr == ('indexOf' if LANG.js else 'find') and len(n.args) == 1 and not n.keywords)
 
         def intval(n):
             if isinstance(n, ast.Constant) and isinstance(n.value, int) and not isinstance(n.value, bool):
@@ -571,6 +663,14 @@ class FnTr:
                 refuse(node, 'slice of a %s' % show_type(x.ty))
             return E('(py_slice %s %s %s)' % (x.text, self.bound(node.slice.lower, env), self.bound(node.slice.upper, env)), x.ty if x.ty == 'str' else ('list', x.ty[1]))
         x = self.recv(node.value, env)
+        if LANG.js and x.ty in ('match', 'g0') and isinstance(node.slice, ast.Constant) and node.slice.value in (0, 1) and not isinstance(node.slice.value, bool):
+            if x.ty == 'g0':
+                if node.slice.value != 0:
+                    refuse(node, 'group 1 of a pattern without groups')
+                return E(x.text, 'str')
+            return E('(m_group%d %s)' % (node.slice.value, x.text), 'str')
+        if LANG.js and x.ty == 'optmatch':
+            refuse(node, 'index of a match result that may be null')
         if is_tuple(x.ty):
             if not (isinstance(node.slice, ast.Constant) and isinstance(node.slice.value, int) and 0 <= node.slice.value < len(x.ty[1])):
                 refuse(node, 'tuple index must be a constant in range')
@@ -624,6 +724,11 @@ class FnTr:
             if n.ty != 'int':
                 refuse(node, 'range of a %s' % show_type(n.ty))
             return '(py_range %s)' % n.text, 'int'
+        if LANG.js and isinstance(node, ast.Call) and isinstance(node.func, ast.Attribute) and node.func.attr == 'exec_all':
+            r = self.expr(node.func.value, env)
+            if r.ty == 'rx':
+                return self.rx_call(node, r, 'exec_all', env), 'g0'
+            refuse(node, 'exec loop on a %s' % show_type(r.ty))
         if isinstance(node, ast.Call) and isinstance(node.func, ast.Attribute) and node.func.attr == 'finditer':
             r = self.expr(node.func.value, env)
             if r.ty == 'rx':
@@ -635,8 +740,15 @@ class FnTr:
 
     def rx_call(self, node, r, method, env):
         for c in sorted(r.rxs):
-            if method not in RX_ALLOWED[c]:
+            if method not in (RX_ALLOWED_JS if LANG.js else RX_ALLOWED)[c]:
                 refuse(node, 'regular expression method %s on pattern %s has no hand-written scanner' % (method, c))
+        if method == 'exec':
+            if len(node.args) != 1 or node.keywords:
+                refuse(node, 'rgx.exec with unexpected arguments')
+            s = self.expr(node.args[0], env)
+            if s.ty != 'str':
+                refuse(node, 'rgx.exec argument type')
+            return '(re_match %s %s 0%%Z)' % (r.text, s.text)
         if method == 'match':
             if not (1 <= len(node.args) <= 2) or node.keywords:
                 refuse(node, 'rgx.match with unexpected arguments')
@@ -662,8 +774,13 @@ class FnTr:
                 if x.ty == 'str' or is_list(x.ty):
                     return E('(zlen %s)' % x.text, 'int')
                 refuse(node, 'len of a %s' % show_type(x.ty))
-            if f.id == 'list' and not node.args:
+            if f.id == 'list' and not node.args and not LANG.js:
                 return E('[]', new_list())
+            if LANG.js and f.id == 'RegExp':
+                pat = self.mod.compile_text(node)
+                if pat is None:
+                    refuse(node, 'new RegExp with a non-constant argument')
+                return self.rx_of_text(node, pat)
             if f.id in self.mod.funcs and f.id not in env:
                 info = self.infos.get(f.id)
                 if info is None or info.text is None:
@@ -671,7 +788,7 @@ class FnTr:
                 if info.partial or info.mutated:
                     refuse(node, 'call of %s (partial or mutating) must be a statement of its own' % f.id)
                 args = self.call_args(node, info, env)
-                return E('(gen_py_%s %s)' % (f.id, ' '.join(args)), info.ret)
+                return E('(%s%s %s)' % (LANG.prefix, f.id, ' '.join(args)), info.ret)
             refuse(node, 'call of %s is outside the rules' % f.id)
         if isinstance(f, ast.Attribute):
             # re.compile(<constant>)
@@ -694,6 +811,11 @@ class FnTr:
                         out.append(a.text)
                 return E('(' + ' ++ '.join(out) + ')' if len(out) > 1 else out[0], 'str')
             x = self.recv(f.value, env)
+            if LANG.js:
+                r = self.js_method(node, f, x, env)
+                if r is not None:
+                    return r
+                refuse(node, 'unknown method %s on a %s' % (f.attr, show_type(x.ty)))
             if x.ty == 'rx' and f.attr == 'match':
                 return E(self.rx_call(node, x, 'match', env), 'optmatch')
             if x.ty == 'rx' and f.attr == 'findall':
@@ -726,6 +848,36 @@ class FnTr:
             refuse(node, 'unknown method %s on a %s' % (f.attr, show_type(x.ty)))
         refuse(node, 'call form outside the rules')
 
+    def js_method(self, node, f, x, env):
+        if x.ty == 'rx' and f.attr == 'exec':
+            return E(self.rx_call(node, x, 'exec', env), 'optmatch')
+        if x.ty != 'str':
+            return None
+        # s.replace(/plain text/g, 'replacement')
+        if f.attr == 'replace' and len(node.args) == 2 and isinstance(node.args[0], ast.Constant) and isinstance(node.args[0].value, tuple):
+            key = (node.args[0].value[1], node.args[0].value[2])
+            if key not in JS_REPLACE_LITERALS:
+                refuse(node, 'replace with the regular expression literal /%s/%s is outside the rules' % key)
+            rep = self.expr(node.args[1], env)
+            if not (isinstance(node.args[1], ast.Constant) and isinstance(node.args[1].value, str) and '$' not in node.args[1].value):
+                refuse(node, 'replacement text must be a constant without $')
+            return E('(py_replace %s %s %s)' % (x.text, lit_str(JS_REPLACE_LITERALS[key]), rep.text), 'str')
+        args = [self.expr(a, env) for a in node.args]
+        tys = [a.ty for a in args]
+        if f.attr == 'substring' and tys in (['int'], ['int', 'int']):
+            return E('(js_substring %s %s %s)' % (x.text, args[0].text, '(Some %s)' % args[1].text if len(args) == 2 else 'None'), 'str')
+        if f.attr == 'slice' and tys in (['int'], ['int', 'int']):
+            return E('(py_slice %s (Some %s) %s)' % (x.text, args[0].text, '(Some %s)' % args[1].text if len(args) == 2 else 'None'), 'str')
+        if f.attr == 'indexOf' and tys in (['str'], ['str', 'int']):
+            return E('(js_indexof %s %s %s)' % (x.text, args[0].text, args[1].text if len(args) == 2 else lit_int(0)), 'int')
+        if f.attr == 'startsWith' and tys in (['str'], ['str', 'int']):
+            return E('(js_startswith %s %s %s)' % (x.text, args[0].text, args[1].text if len(args) == 2 else lit_int(0)), 'bool')
+        if f.attr == 'includes' and tys == ['str']:
+            return E('(py_contains %s %s)' % (x.text, args[0].text), 'bool')
+        if f.attr == 'split' and tys == ['str']:
+            return E('(py_split %s %s)' % (x.text, args[0].text), new_list('str'))
+        return None
+
     def call_args(self, node, info, env, allow_mut=False):
         if len(node.args) > len(info.params):
             refuse(node, 'too many arguments for %s' % info.name)
@@ -754,10 +906,50 @@ class FnTr:
             return k(env)
         st, rest = stmts[0], stmts[1:]
         self.nodes += 1
+        hoisted = self.hoist(st, env)
+        if hoisted:
+            return self.block(hoisted + list(rest), env, k)
         m = getattr(self, 's_' + type(st).__name__, None)
         if m is None:
             refuse(st, 'statement form %s is outside the rules' % type(st).__name__)
         return m(st, env, lambda e2: self.block(rest, e2, k))
+
+    def hoist(self, st, env):
+        """a call of a PARTIAL translated function nested inside the expression of a simple statement is bound first:
+        tmp = f(..); statement with tmp.  Sound because every expression is pure; refused under a conditional / short-circuit
+        operator (the call would no longer be conditional)."""
+        if not isinstance(st, (ast.Return, ast.Assign, ast.AugAssign, ast.Expr)) or st.value is None:
+            return None
+        tr = self
+
+        def partial_call(n):
+            return tr.is_fn_call(n, env) and tr.infos.get(n.func.id) is not None and tr.infos[n.func.id].partial and not tr.infos[n.func.id].mutated
+        if partial_call(st.value):
+            return None                       # already a statement of its own
+        found = [n for n in ast.walk(st.value) if partial_call(n)]
+        if not found:
+            return None
+        for n in ast.walk(st.value):
+            if isinstance(n, (ast.IfExp, ast.BoolOp, ast.ListComp, ast.Lambda)) and any(partial_call(x) for x in ast.walk(n)):
+                refuse(st, 'call of a partial function under a conditional expression')
+        pre = []
+
+        class H(ast.NodeTransformer):
+            def visit_Call(self, n):
+                self.generic_visit(n)
+                if partial_call(n):
+                    tr.n_hoist += 1
+                    name = 'call%d__' % tr.n_hoist
+                    a = ast.Assign(targets=[ast.Name(id=name, ctx=ast.Store())], value=n)
+                    ast.copy_location(a, st)
+                    pre.append(a)
+                    return ast.copy_location(ast.Name(id=name, ctx=ast.Load()), n)
+                return n
+        st.value = H().visit(st.value)
+        for a in pre:
+            ast.fix_missing_locations(a)
+        ast.fix_missing_locations(st)
+        return pre + [st]
 
     def s_Pass(self, st, env, k):
         return k(env)
@@ -786,7 +978,7 @@ class FnTr:
         if self.info.ret is None:
             self.info.ret = e.ty
         elif not same_type(self.info.ret, e.ty):
-            raise Refuse('%s: %s returns both %s and %s' % (SRC_REL, self.info.name, show_type(self.info.ret), show_type(e.ty)))
+            raise Refuse('%s: %s returns both %s and %s' % (LANG.src_rel, self.info.name, show_type(self.info.ret), show_type(e.ty)))
         t = e.text
         if self.info.mutated:
             t = '(' + ', '.join([env[self.info.params[i][0]].coq for i in self.info.mutated] + [t]) + ')'
@@ -823,7 +1015,7 @@ class FnTr:
                 env2[t] = Var(ty, coq_name(t))
             rp = '(' + ', '.join(env2[t].coq for t in targets) + ')'
         pat = '(' + ', '.join(mut_names + [rp]) + ')' if mut_names else rp
-        calltxt = 'gen_py_%s %s' % (info.name, ' '.join(args))
+        calltxt = '%s%s %s' % (LANG.prefix, info.name, ' '.join(args))
         body = k(env2)
         if info.partial:
             if not self.info.partial:
@@ -837,7 +1029,7 @@ class FnTr:
         v = st.value
         if isinstance(v, ast.Constant) and isinstance(v.value, str):
             return k(env)                 # docstring
-        if isinstance(v, ast.Call) and isinstance(v.func, ast.Attribute) and v.func.attr == 'append' and isinstance(v.func.value, ast.Name) and len(v.args) == 1 and not v.keywords:
+        if isinstance(v, ast.Call) and isinstance(v.func, ast.Attribute) and v.func.attr == ('push' if LANG.js else 'append') and isinstance(v.func.value, ast.Name) and len(v.args) == 1 and not v.keywords:
             name = v.func.value.id
             if name not in env or not is_list(env[name].ty):
                 refuse(st, 'append on %s which is not a local list' % name)
@@ -924,7 +1116,11 @@ class FnTr:
         if e.ty in ('g0',):
             e = E(e.text, 'str')
         if e.ty == 'none':
-            refuse(st, 'assignment of None')
+            if not LANG.js:
+                refuse(st, 'assignment of None')
+            env2 = dict(env)
+            env2[name] = Var('none', coq_name(name))
+            return k(env2)
         env2 = dict(env)
         cn = coq_name(name)
         if e.const is not None and not self.loop_depth:
@@ -1026,12 +1222,16 @@ class FnTr:
             refuse(st, 'while .. else')
         if self.loop_depth:
             refuse(st, 'nested loops are outside the rules')
-        fuel = FUEL.get(self.info.name)
-        if fuel is None:
+        fuels = LANG.fuel.get(self.info.name, [])
+        if self.n_while >= len(fuels):
             refuse(st, 'while loop in %s: no fuel is known for it' % self.info.name)
-        for n in ('src',):
-            if n not in env or env[n].ty != 'str' or n in assigned_names(self.info.node.body):
-                refuse(st, 'the fuel %s needs the unmodified parameter %s' % (fuel, n))
+        ftmpl, fvar = fuels[self.n_while]
+        self.n_while += 1
+        if fvar not in env or not (env[fvar].ty == 'str' or is_list(env[fvar].ty)):
+            refuse(st, 'the fuel %s needs the variable %s' % (ftmpl % fvar, fvar))
+        if fvar == 'src' and (fvar in assigned_names(self.info.node.body, self.infos) or fvar not in [p[0] for p in self.info.params]):
+            refuse(st, 'the fuel %s needs the unmodified parameter %s' % (ftmpl % fvar, fvar))
+        fuel = ftmpl % env[fvar].coq
         names = self.loop_state(st, st.body, env)
         if not names:
             refuse(st, 'while loop without loop-carried state')
@@ -1108,9 +1308,9 @@ class FnTr:
             refuse(node, 'signature of %s is outside the rules' % info.name)
         self.mut_lists = set()
         for n in ast.walk(node):
-            if isinstance(n, ast.Call) and isinstance(n.func, ast.Attribute) and n.func.attr in ('append',) and isinstance(n.func.value, ast.Name):
+            if isinstance(n, ast.Call) and isinstance(n.func, ast.Attribute) and n.func.attr in ('append', 'push') and isinstance(n.func.value, ast.Name):
                 self.mut_lists.add(n.func.value.id)
-            if isinstance(n, ast.Call) and isinstance(n.func, ast.Attribute) and n.func.attr in ('extend', 'insert', 'pop', 'clear', 'sort', 'reverse', 'remove') and isinstance(n.func.value, ast.Name):
+            if isinstance(n, ast.Call) and isinstance(n.func, ast.Attribute) and n.func.attr in ('extend', 'insert', 'pop', 'clear', 'sort', 'reverse', 'remove', 'shift', 'unshift', 'splice') and isinstance(n.func.value, ast.Name):
                 refuse(n, 'list method %s is outside the rules' % n.func.attr)
             if isinstance(n, ast.Subscript) and isinstance(n.ctx, ast.Store) and isinstance(n.value, ast.Name):
                 self.mut_lists.add(n.value.id)
@@ -1126,9 +1326,11 @@ class FnTr:
         for pn, pt, pd in info.params:
             env[pn] = Var(pt, coq_name(pn))
         self.loop_depth = 0
+        self.n_while = 0
+        self.n_hoist = 0
         body = self.block(node.body, env, lambda e2: refuse(node, 'a path through %s ends without return' % info.name))
         ps = ' '.join('(%s : %s)' % (coq_name(pn), coq_type(pt)) for pn, pt, pd in info.params)
-        info.text = 'Definition gen_py_%s %s :=\n%s.' % (info.name, ps, indent(body))
+        info.text = 'Definition %s%s %s :=\n%s.' % (LANG.prefix, info.name, ps, indent(body))
         info.size = self.nodes
 
 
@@ -1142,18 +1344,18 @@ def analyse(mod, names):
 
     def visit(n, stack):
         if n in stack:
-            raise Refuse('%s: recursion through %s is outside the rules' % (SRC_REL, n))
+            raise Refuse('%s: recursion through %s is outside the rules' % (LANG.src_rel, n))
         if n in todo:
             return
         for c in called_functions(mod.funcs[n], mod):
             if c != n:
                 visit(c, stack + [n])
             else:
-                raise Refuse('%s: %s is recursive' % (SRC_REL, n))
+                raise Refuse('%s: %s is recursive' % (LANG.src_rel, n))
         todo.append(n)
     for n in names:
         if n not in mod.funcs:
-            raise Refuse('%s: the covered function %s is gone' % (SRC_REL, n))
+            raise Refuse('%s: the covered function %s is gone' % (LANG.src_rel, n))
         visit(n, [])
     infos = {}
     for n in todo:
@@ -1185,7 +1387,7 @@ def analyse(mod, names):
         pnames = [a.arg for a in node.args.args]
         mut = set()
         for x in ast.walk(node):
-            if isinstance(x, ast.Call) and isinstance(x.func, ast.Attribute) and x.func.attr == 'append' and isinstance(x.func.value, ast.Name) and x.func.value.id in pnames:
+            if isinstance(x, ast.Call) and isinstance(x.func, ast.Attribute) and x.func.attr in ('append', 'push') and isinstance(x.func.value, ast.Name) and x.func.value.id in pnames:
                 mut.add(pnames.index(x.func.value.id))
             if isinstance(x, ast.Subscript) and isinstance(x.ctx, ast.Store) and isinstance(x.value, ast.Name) and x.value.id in pnames:
                 mut.add(pnames.index(x.value.id))
@@ -1201,13 +1403,21 @@ def helper_params(mod, infos, name):
     """parameter types of a helper (a function outside SIGS) from the annotations-free source: every call site must agree;
     the types are found by translating the caller up to the call, which is done lazily: here only str / bool / int constants
     and parameters of covered callers are resolved"""
-    raise Refuse('%s: the helper function %s is called by a covered function: helpers are outside the rules (no signature is known for it)' % (SRC_REL, name))
+    raise Refuse('%s: the helper function %s is called by a covered function: helpers are outside the rules (no signature is known for it)' % (LANG.src_rel, name))
 
 
 def translate(path):
     text = open(path, encoding='utf-8').read()
-    tree = ast.parse(text, path)
-    mod = Module(tree)
+    if LANG.js:
+        import jsparse_csv
+        try:
+            consts, funcs, skipped_js = jsparse_csv.parse_functions(text, LANG.src_rel)
+        except jsparse_csv.JSRefuse as e:
+            raise Refuse('outside the JavaScript subset: %s' % e)
+        mod = Module.from_js(consts, funcs, list(funcs))
+    else:
+        tree = ast.parse(text, path)
+        mod = Module(tree)
     todo, infos = analyse(mod, COVERED)
     for n in todo:
         info = infos[n]
@@ -1216,49 +1426,56 @@ def translate(path):
         FnTr(mod, infos, info).run()
         if n in RESULT:
             if not same_type(freeze_type(info.ret), freeze_type(RESULT[n])):
-                raise Refuse('%s: the result of %s changed its shape: %s expected, %s found' % (SRC_REL, n, show_type(RESULT[n]), show_type(info.ret)))
-            if info.partial != EXPECT_PARTIAL[n]:
+                raise Refuse('%s: the result of %s changed its shape: %s expected, %s found' % (LANG.src_rel, n, show_type(RESULT[n]), show_type(info.ret)))
+            if info.partial != LANG.expect_partial[n]:
                 raise Refuse('%s: %s %s (a while loop or an assert appeared or disappeared): the statement of its obligation no longer fits'
-                             % (SRC_REL, n, 'became partial' if info.partial else 'is no longer partial'))
+                             % (LANG.src_rel, n, 'became partial' if info.partial else 'is no longer partial'))
             if [info.params[i][0] for i in info.mutated] != EXPECT_MUTATED.get(n, []):
-                raise Refuse('%s: the set of parameters that %s mutates changed' % (SRC_REL, n))
+                raise Refuse('%s: the set of parameters that %s mutates changed' % (LANG.src_rel, n))
     skipped = [n for n in mod.order if n not in todo]
     return mod, todo, infos, skipped
 
 
 def main():
-    out_dir = sys.argv[1]
-    prefix = sys.argv[2] if len(sys.argv) > 2 else 'gen_py_'
-    os.makedirs(out_dir, exist_ok=True)
-    path = os.path.join(REPO, SRC_REL)
+    """translate_csv.py <out_dir> [py|js]            writes GenCsv.v / GenCsvJs.v (+ .json)
+       translate_csv.py --print <prefix> [py|js]     prints the definitions with another prefix (how CsvIx.v / CsvIxJs.v were made)"""
+    global LANG
+    args = sys.argv[1:]
+    lang = 'js' if 'js' in args[1:] else 'py'
+    LANG = Lang(lang)
+    path = os.path.join(REPO, LANG.src_rel)
     try:
         mod, todo, infos, skipped = translate(path)
     except Refuse as e:
         sys.stderr.write('translate_csv: REFUSED: %s\n' % e)
         return 2
     except SyntaxError as e:
-        sys.stderr.write('translate_csv: REFUSED: %s does not parse: %s\n' % (SRC_REL, e))
+        sys.stderr.write('translate_csv: REFUSED: %s does not parse: %s\n' % (LANG.src_rel, e))
         return 2
     defs = '\n\n'.join(infos[n].text for n in todo)
-    if prefix != 'gen_py_':
-        defs = defs.replace('gen_py_', prefix)
-        sys.stdout.write(defs + '\n')
+    if args[0] == '--print':
+        sys.stdout.write(defs.replace(LANG.prefix, args[1]) + '\n')
         return 0
-    tmpl = open(os.path.join(HERE, 'gen_csv_tie.v.tmpl'), encoding='utf-8').read()
+    out_dir = args[0]
+    os.makedirs(out_dir, exist_ok=True)
+    base = 'GenCsvJs' if LANG.js else 'GenCsv'
+    tmpl = open(os.path.join(HERE, 'gen_csv_tie_js.v.tmpl' if LANG.js else 'gen_csv_tie.v.tmpl'), encoding='utf-8').read()
     head = ('(* GENERATED by harness/translate_csv.py from %s on every run - never committed.\n'
-            '   Definitions gen_py_<name>: the translation of the source text; then the committed obligations\n'
-            '   gen_csv_<name>_eq (= the hand-written index model CsvIx.v) and the transferred theorems. *)\n'
-            'From RBQL Require Import Base Csv PyStr CsvIx.\n\n' % SRC_REL)
-    with open(os.path.join(out_dir, 'GenCsv.v'), 'w', encoding='utf-8') as f:
+            '   Definitions %s<name>: the translation of the source text; then the committed obligations\n'
+            '   (= the hand-written index model %s) and the transferred theorems. *)\n'
+            'From RBQL Require Import Base Csv PyStr %s.\n\n' % (LANG.src_rel, LANG.prefix, 'CsvIxJs.v' if LANG.js else 'CsvIx.v', 'JsStr CsvIxJs' if LANG.js else 'CsvIx'))
+    with open(os.path.join(out_dir, base + '.v'), 'w', encoding='utf-8') as f:
         f.write(head + defs + '\n\n' + tmpl)
     import re
     thms = re.findall(r'^\s*(?:Theorem|Lemma|Corollary)\s+([A-Za-z0-9_\']+)', re.sub(r'\(\*.*?\*\)', '', tmpl, flags=re.S), flags=re.M)
-    with open(os.path.join(out_dir, 'GenCsv.json'), 'w', encoding='utf-8') as f:
-        json.dump({'source': path, 'functions': [{'name': n, 'partial': infos[n].partial, 'mutated': [infos[n].params[i][0] for i in infos[n].mutated],
-                                                   'result': show_type(infos[n].ret), 'ast_nodes': infos[n].size, 'lines': infos[n].text.count('\n') + 1} for n in todo],
+    table = RX_TABLE_JS if LANG.js else RX_TABLE
+    with open(os.path.join(out_dir, base + '.json'), 'w', encoding='utf-8') as f:
+        json.dump({'source': path, 'language': LANG.name,
+                   'functions': [{'name': n, 'partial': infos[n].partial, 'mutated': [infos[n].params[i][0] for i in infos[n].mutated],
+                                  'result': show_type(infos[n].ret), 'ast_nodes': infos[n].size, 'lines': infos[n].text.count('\n') + 1} for n in todo],
                    'skipped': skipped, 'theorems': thms,
                    'obligations': [t for t in thms if t.startswith('gen_csv_')],
-                   'patterns': sorted(set(mod.rx.values()) & set(RX_TABLE))}, f, indent=1)
+                   'patterns': sorted(str(k) for k in set(mod.rx.values()) & set(table))}, f, indent=1)
     return 0
 
 
